@@ -62,7 +62,8 @@ func init() {
 			}
 			check(fmt.Sprintf("connection %d, after a pre-registration NOTICE", idx))
 			write(":srv 001 " + welcome + " :Welcome")
-			for i := 0; i < 2000 && cl.GetNick() != welcome; i++ {
+			// (the tracked nick itself: GetNick falls back to Config.Nick while it is empty, and the welcome is handled in the background)
+			for i := 0; i < 3000 && girc.VerifDumpState(cl)[0] != "nick="+welcome; i++ {
 				time.Sleep(time.Millisecond)
 			}
 			check(fmt.Sprintf("connection %d, after 001 %s", idx, welcome))
@@ -73,6 +74,33 @@ func init() {
 					return false
 				}
 				check(fmt.Sprintf("connection %d, after NICK %s", idx, rename))
+			}
+			// … and the client knows ITSELF on every connection: its own JOIN makes it a member with its ident and host, its own
+			// PART makes it leave (what the tracker does for any user, applied to the client's current name)
+			cur := welcome
+			if rename != "" {
+				cur = rename
+			}
+			ch := fmt.Sprintf("#own%d", idx)
+			write(":" + cur + "!myident@my.host JOIN " + ch)
+			write(":srv 353 " + cur + " = " + ch + " :" + cur + " @bob")
+			write("PING :joined")
+			if !wait("PONG") {
+				return false
+			}
+			me := cl.LookupUser(cur)
+			if !cl.IsInChannel(ch) || me == nil || me.Ident != "myident" || me.Host != "my.host" || cl.GetIdent() != "myident" {
+				c.R.Violation("track.own_join_reconnect", hin, fmt.Sprintf("connection %d as %q: IsInChannel=%v user=%v GetIdent=%q channels=%q", idx, cur, cl.IsInChannel(ch), me != nil, cl.GetIdent(), cl.ChannelList()),
+					"member of "+ch+" with ident myident", "after its own JOIN the client is not tracked as a member under its current name (identity left over from an earlier connection?)")
+			}
+			write(":" + cur + "!myident@my.host PART " + ch)
+			write("PING :parted")
+			if !wait("PONG") {
+				return false
+			}
+			if cl.IsInChannel(ch) || len(cl.ChannelList()) != 0 || len(cl.UserList()) != 0 {
+				c.R.Violation("track.own_part_reconnect", hin, fmt.Sprintf("connection %d as %q: channels=%q users=%q", idx, cur, cl.ChannelList(), cl.UserList()), "nothing tracked",
+					"after its own PART the channel and its users are still tracked")
 			}
 			return true
 		}
